@@ -39,7 +39,8 @@ from compiler.front_end import glue, emboss_front_end
 from compiler.util import ir_data, ir_util, traverse_ir
 
 HDR = '[$default byte_order: "LittleEndian"]\n'
-OTHER = HDR + "struct Far:\n  0 [+1]  UInt  q\nstruct Aa:\n  0 [+2]  UInt  w\nenum Fe:\n  FV = 3\n"
+OTHER = (HDR + "struct Far:\n  0 [+1]  UInt  q\nstruct Aa:\n  0 [+2]  UInt  w\nenum Fe:\n  FV = 3\n"
+         "enum Kind:\n  OV = 1\nstruct Packet:\n  0 [+1]  Kind  k\n")
 
 
 def compile_text(text):
@@ -314,6 +315,25 @@ def b_cases():
         text = imp + H + "struct Aa:\n  0 [+1]  UInt  q\nstruct Outer:\n  0 [+%d]  %s  probe\n" % (size, ref)
         C("import: type %s" % ref, text, None if want is None else ("type", ("Outer",), "probe", want))
     C("import: two imports under one alias", 'import "other.emb" as other\nimport "other.emb" as other\n' + H + "struct Outer:\n  0 [+1]  UInt  a\n", None)
+    # members through aliases: the member is looked up in the type of what the alias denotes
+    deep = ("struct Leaf:\n  0 [+1]  UInt  mm\n  1 [+1]  UInt  len\nstruct In:\n  0 [+2]  Leaf  t\n  2 [+1]  UInt  len\n")
+    for ref, want in [("al.mm", ("Leaf", "mm")), ("al.len", ("Leaf", "len")), ("al1.len", ("In", "len")), ("al1.t.mm", ("Leaf", "mm")),
+                      ("al.zz", None), ("al1.mm", None), ("al2.len", ("Leaf", "len"))]:
+        text = H + deep + ("struct Outer:\n  0 [+3]  In  s\n  let al = s.t\n  let al1 = s\n  let al2 = al\n"
+                           "  3 [+%s]  UInt:8[]  probe\n" % ref)
+        C("member through an alias: %s" % ref, text, None if want is None else (("Outer",), "probe", want))
+    # the same type path and the same source names in the importing and the imported module: each binds in its own module
+    C("import: same type path and names in both modules",
+      imp + H + "enum Kind:\n  MV = 2\nstruct Packet:\n  0 [+1]  Kind  k\n  1 [+1]  other.Packet  p\n",
+      ("types", [("probe.emb", ("Packet",), "k", ("probe.emb", "Kind")), ("other.emb", ("Packet",), "k", ("other.emb", "Kind")),
+                 ("probe.emb", ("Packet",), "p", ("other.emb", "Packet"))]))
+    # inline types: the field's own type is the inline one; a later plain reference to the same name sees two definitions
+    C("inline enum alone", H + "struct Foo:\n  0 [+1]  enum  foo:\n    BAR = 1\n",
+      ("types", [("probe.emb", ("Foo",), "foo", ("probe.emb", "Foo", "Foo"))]))
+    C("inline enum, then a plain reference to a name visible from two scopes",
+      H + "struct Foo:\n  0 [+1]  enum  foo:\n    BAR = 1\n  1 [+1]  Foo  other\n", None)
+    C("plain reference first, then the inline enum",
+      H + "struct Foo:\n  0 [+1]  Foo  other\n  1 [+1]  enum  foo:\n    BAR = 1\n", None)
     # `this`
     C("`this` inside [requires] on a field", H + "struct Outer:\n  0 [+1]  UInt  aa\n    [requires: this > 0]\n", "accept")
     C("`this` outside an attribute", H + "struct Outer:\n  0 [+1]  UInt  aa\n  1 [+this]  UInt:8[]  probe\n", None)
@@ -370,6 +390,24 @@ def run_b(_=None):
             return
         if want == "accept":
             out["discharged"] += 1
+            return
+        if want[0] == "types":
+            bad = None
+            for mod, owner, fname, exp in want[1]:
+                mi = [i for i, m in enumerate(ir.module) if m.source_file_name == mod][0]
+                t = find_type(ir, owner, mi)
+                f = [x for x in t.structure.field if x.name.name.text == fname][0]
+                cn = f.type.atomic_type.reference.canonical_name
+                got = (cn.module_file,) + tuple(cn.object_path)
+                if got != tuple(exp):
+                    bad = (mod, owner, fname, got, exp)
+                    break
+            if bad is None:
+                out["discharged"] += 1
+            else:
+                out["candidates"].append(dict(desc, rejected=False, bound=list(bad[3]),
+                                              what="%s %s.%s bound to %s, the scoping rule designates %s" % (
+                                                  bad[0], ".".join(bad[1]), bad[2], list(bad[3]), list(bad[4]))))
             return
         if want[0] == "type":
             _, owner, fname, (mod, *path) = want
@@ -459,7 +497,8 @@ def main(tier):
         "bounds": {"type names": "names Aa/Bb/absent at four definition sites (+ a local type named like a prelude type), three reference positions, "
                                  "eight reference forms (bare, dotted, prelude)",
                    "other": "own fields x abbreviation x reference; members through a dot; enum values (qualified, bare, nested); duplicates in one scope "
-                            "and equal names in different scopes; one import (qualified, bare, wrong alias, clash with a local name); `this`",
+                            "and equal names in different scopes; one import (qualified, bare, wrong alias, clash with a local name, equal type paths in both modules); "
+                            "members through aliases of fields, of paths and of aliases; inline types; `this`",
                    "outside": "longer paths and deeper nesting than the templates; parameters; `$next`; names across more than one import"},
         "note": "finite domain: the paths enumerate every combination; the solver decides path feasibility of the choices and nothing else",
     })
